@@ -4,3 +4,4 @@ CONSTANTS
   BigN = 8
   TallN = 3
   MaxM = 7
+  WMax = 7
